@@ -69,7 +69,8 @@ prop("C06", "arbitrary broker bytes never crash the client", "exploration",
            fuzz=[dict(target="FuzzVerifC06ReadPacket", time="180s", workers=4)]),
       dict(tests="^TestVerifC06_Connected$", checks_quick=4000, checks_thorough=120000, shards=6, as_limit_gb=8),
       dict(tests="^TestVerifC06_InFlight$", checks_quick=3000, checks_thorough=90000, shards=4),
-      dict(tests="^TestVerifC06_ViaRetry$", checks_quick=1200, checks_thorough=15000, shards=6)],
+      dict(tests="^TestVerifC06_ViaRetry$", checks_quick=1200, checks_thorough=15000, shards=6),
+      dict(tests="^TestVerifC06_AllocBound$", checks_quick=6, checks_thorough=30, shards=1, as_limit_gb=8)],
      assumptions=["only the malformed classes listed in the property are asserted to end the link (e.g. an over-long PUBACK body is not)",
                   "ill-formed UTF-8 and encoded surrogates in topics are 'don't care' (accepting or rejecting both pass)"])
 
